@@ -9,7 +9,7 @@ CHECKS = {
  "C02": ("exploration", "3.C02", "Per-call work read off the simulator's seams (hash computations, table allocations, elements moved) compared with the stated constants on every call of seeded histories.", "deterministic simulation: work counters on hasher/allocator seams"),
  "C03": ("exploration", "3.C03", "Bounded-liveness monitor: countdown ceil(L/R) armed when a resize starts; live table allocations compared with the hook state after every step.", "deterministic simulation: bounded-progress monitor + allocator accounting"),
  "C04": ("exploration", "3.C04", "Headroom invariant and capacity()>=len() after every step of churn/shrink/reserve histories; every run ends by filling to capacity with fresh keys (no panic, no allocation, capacity monotone, no resize left).", "deterministic simulation: invariant + end-of-run probe"),
- "C05": ("exploration", "3.C05", "Union workload under AddressSanitizer and the dev profile with canary/liveness element types and the cached-iterator agreement invariant after every step and right after every caught panic; fault kinds: panics in Hash/Eq/Clone/closures/destructors, allocation failure, sizes near usize::MAX, zero-sized elements with destructors, logic-error keys (inconsistent Hash/Eq, memory safety only); process aborts are violations; thorough adds a Miri stage.", "deterministic simulation with fault injection (panicking callbacks and destructors, allocation failure, logic-error keys) under ASan / Miri + canary elements + hook invariant"),
+ "C05": ("exploration", "3.C05", "Union workload under AddressSanitizer and the dev profile with canary/liveness element types and the cached-iterator agreement invariant after every step and right after every caught panic; fault kinds: panics in Hash/Eq/Clone/closures/destructors, allocation failure, sizes near usize::MAX, zero-sized elements with destructors, logic-error keys (inconsistent Hash/Eq, memory safety only); process aborts are violations; thorough adds a Miri stage. The thread-safety clause (which handle types are Send/Sync) is decided by compile probes (probes/autotraits), not by a run.", "deterministic simulation with fault injection (panicking callbacks and destructors, allocation failure, logic-error keys) under ASan / Miri + canary elements + hook invariant"),
  "C06": ("exploration", "3.C06", "Object ledger (exactly-once drop, no leak; a count for the zero-sized class with destructors) after every step and at teardown, with drain/drain_filter/into_iter cancelled (dropped or forgotten) after k steps; one run in 512 (quick) / 32 (thorough) samples a small state and enumerates every cancellation point k in 0..=len for each lazy operation.", "deterministic simulation: drop ledger with cancellation of lazy operations"),
  "C07": ("fault_enumeration", "3.C07", "For each explored (state, operation) every user callback the operation performs gets its own execution with a panic injected exactly there; state judged after catch_unwind, model adopts it, rest of the schedule checked exactly. States are sampled, crash points per (state, op) are enumerated completely (up to 64 per op).", "deterministic simulation: crash-point enumeration of user callbacks"),
  "C08": ("exploration", "3.C08", "Every iterator kind checked for exact len/size_hint at every step, fusedness, clone independence, keys/values order; drain and into_iter consumed, dropped or forgotten after k steps (sampled, and enumerated for every k in sampled small states); a third of the runs inject a panic into a user callback first and judge the iterators against what lookups find afterwards.", "deterministic simulation: iterator protocol checks with cancellation"),
